@@ -67,6 +67,23 @@ CLAIMED["C17"] = dict(
     note="Trusted: the simulated GitHub / GitLab REST servers (stubs modelling comment identity, diff-line validation, body normalisation, pagination, thread replies), git 2.39 (real). No scheduler is needed (the client is sequential); the bubble supplies the fake clock for timeouts, back-off and rate-limit sleeps. Comment placement is demanded only when every line of the problem was added by the diff. Lost acknowledgements are supported by the stub but not part of the quantifier and not generated.",
 )
 
+# Families and rules added after the first version of each harness (DESIGN 10, 13).
+ADDED = {
+    "C13": " Also: once the cache holds the slices of one window, that window and a second window of the same expression (same end and step) are asked at the same time by two callers and each must equal what it returns alone; slice faults include 499/canceled and a 200 body that ends cleanly after `\"result\":[`.",
+    "C14": " The scheduler can also hold every parked task back while simulated time passes (pauses), so deadlines, GC ticks and expiries can overtake a response.",
+    "C15": " An upstream is judged by its last word: asking the same upstream again after unavailability is allowed, after an answer it is not. A third family runs the whole `pint lint` command in process during a total outage or with only the last upstream of every server healthy and compares report, console output and exit status with a run against healthy servers.",
+    "C16": " The database keeps growing while pint is asking (samples are appended up to the instant of every request); some scenarios give all selectors one long common prefix; rules pairing two bare metrics without a fallback are generated on purpose.",
+    "C11": " Slow-but-healthy servers (150-450 ms per answer, timeout 2 s) are part of the workload. A run that never comes back ends the worker at once (the process is not trustworthy afterwards) and is reported without minimisation.",
+    "C07": "",
+    "C03": " Scripted multi-commit motifs (a path freed by a deletion or rename taken over by another file that is edited before and after, rename-then-edit, rename-and-back) are mixed into the random histories.",
+    "C20": " Histories of up to 6 commits with the same scripted motifs, an edit that removes nothing, and a configuration in which only `relaxed/` is parsed in relaxed mode (bare lists there, strict documents elsewhere).",
+    "C17": " Faults include a create that is applied but answered after the reporter's timeout; duplicates are judged in those rounds too. Forge requests are scheduling points of the seeded scheduler.",
+}
+for _k, _v in ADDED.items():
+    CLAIMED[_k]["text"] += _v
+    CLAIMED[_k]["note"] += " Before the search every check replays the minimised histories of the defects recorded as fixed (replays/<id>/fixed-*.json); one that fails again is reported as a violation at once."
+
+
 NA = {
     "C01": "pure function of the file bytes (agreement of two acceptors): no schedule, clock, fault or peer for a simulator to own; deciding it is differential input generation, which this task's technique family excludes",
     "C02": "totality of a pure function of (bytes, parser mode): nothing time-, schedule- or fault-dependent in the anchored code",
